@@ -627,6 +627,33 @@ func vInitStoreScenarios() {
 			}
 			return out
 		}})
+	vScenarios = append(vScenarios, &vScenario{Prop: "C17", Name: "own/O5-close-with-data-open",
+		Body: func(x *vSchedExec) {
+			var h [3]*PersistentHybridIndex
+			st, err := vStoreOpen(x, vStoreCfg{Mem: 2, Thr: 1, Comp: 5, Tmpl: "v", Vec: "flat"})
+			if err != nil {
+				panic(err)
+			}
+			vStoreAdd(x, st, "main", 1, 0) // unflushed: Close has a final flush to do
+			x.Spawn("A", func() { x.Op("A", "Close", func() ([]uint32, error) { return nil, st.Close() }) })
+			x.Spawn("B", func() { openOp(x, "B", &h, 1) })
+			x.Join()
+			x.notes = append(x.notes, fmt.Sprintf("second=%v lock=%v", h[1] != nil, x.fs.Exists(vStoreDir+"/LOCK")))
+			x.notes = append(x.notes, vLockReleasedEarly(x.fs.Log))
+			if h[1] != nil && x.free {
+				h[1].Close()
+			}
+		},
+		Judge: func(x *vSchedExec) [][3]string {
+			var out [][3]string
+			if n := x.notes[0]; n != "second=true lock=true" && n != "second=false lock=false" {
+				out = append(out, [3]string{"lock-file-vs-owner", n, "after Close || Open: " + n})
+			}
+			if x.notes[1] != "" {
+				out = append(out, [3]string{"lock-released-before-close-finished", "", x.notes[1]})
+			}
+			return out
+		}})
 	vScenarios = append(vScenarios, &vScenario{Prop: "C17", Name: "own/O3-close-close",
 		Body: func(x *vSchedExec) {
 			st, err := vStoreOpen(x, vStoreCfg{Mem: 2, Thr: 1, Comp: 5, Tmpl: "v", Vec: "flat"})
